@@ -123,14 +123,14 @@ func (m *c04Model) RevertChange() {
 	m.add("R")
 	m.pendingChange = 0
 }
-func (m *c04Model) IsEquivalentTo(model.Model) bool                { return false }
-func (m *c04Model) SynchroniseTo(model.Model)                      {}
-func (m *c04Model) DeepClone() model.Model                         { c := *m; return &c }
-func (m *c04Model) ManagementActions() []action.ManagementAction   { return nil }
+func (m *c04Model) IsEquivalentTo(model.Model) bool                    { return false }
+func (m *c04Model) SynchroniseTo(model.Model)                          {}
+func (m *c04Model) DeepClone() model.Model                             { c := *m; return &c }
+func (m *c04Model) ManagementActions() []action.ManagementAction       { return nil }
 func (m *c04Model) ActiveManagementActions() []action.ManagementAction { return nil }
-func (m *c04Model) SetManagementAction(int, bool)                  {}
-func (m *c04Model) SetManagementActionUnobserved(int, bool)        {}
-func (m *c04Model) PlanningUnits() planningunit.Ids                { return nil }
+func (m *c04Model) SetManagementAction(int, bool)                      {}
+func (m *c04Model) SetManagementActionUnobserved(int, bool)            {}
+func (m *c04Model) PlanningUnits() planningunit.Ids                    { return nil }
 func (m *c04Model) NameMappedVariables() *variable.DecisionVariableMap { return nil }
 func (m *c04Model) DecisionVariable(n string) variable.DecisionVariable {
 	v := variable.NewSimpleDecisionVariable(n)
@@ -185,17 +185,17 @@ func (o *c04Events) ObserveEvent(e observer.Event) {
 // ---- one driven explorer --------------------------------------------------------------------
 
 type c04Rig struct {
-	ke      *kexplorer.Explorer
-	src     *c04Source
-	events  *c04Events
-	calls   *c04Calls
-	setNext func(valid bool, change float64) // scripted model only
-	lastObs func() (bool, float64)           // what the model answered during the step
-	dir     int
-	steps   []J
-	class   string
-	t0, cf  float64
-	obj0    float64
+	ke           *kexplorer.Explorer
+	src          *c04Source
+	events       *c04Events
+	calls        *c04Calls
+	setNext      func(valid bool, change float64) // scripted model only
+	lastObs      func() (bool, float64)           // what the model answered during the step
+	dir          int
+	steps        []J
+	class        string
+	t0, cf       float64
+	obj0         float64
 	prevAccepted bool // the previous proposal ended with AcceptChange
 	// change last read by the explorer (for the unset direction, which hands a stale value to the coolant)
 	seen float64
@@ -229,10 +229,10 @@ func c04NewRig(dir int, t0, cf float64, m model.Model, calls *c04Calls, objectiv
 		ke.CoolingFactor = cf
 	} else {
 		ke.SetParameters(parameters.Map{
-			kexplorer.OptimisationDirection:  c04DirName(dir),
-			kexplorer.DecisionVariableName:   objective,
-			kirkpatrick.StartingTemperature:  t0,
-			kirkpatrick.CoolingFactor:        cf,
+			kexplorer.OptimisationDirection: c04DirName(dir),
+			kexplorer.DecisionVariableName:  objective,
+			kirkpatrick.StartingTemperature: t0,
+			kirkpatrick.CoolingFactor:       cf,
 		})
 	}
 	ke.Initialise() // replaces the generator by a time-seeded one ...
@@ -429,7 +429,7 @@ func (r *c04Rig) step(valid bool, change float64, k int64, cool bool, ukind stri
 			emit(J{"kind": "oracle", "what": why[0], "all": why, "reasons": len(why), "cause": cause, "class": r.class,
 				"previous_proposal_accepted": prevAccepted, "objective_moved_by": c04G(objAfter - objBefore),
 				"moved_by_minus_reported_change": objAfter-objBefore == -change,
-				"direction": c04DirName(r.dir), "valid": valid, "change": c04G(change), "change_bits": c04Bits(change),
+				"direction":                      c04DirName(r.dir), "valid": valid, "change": c04G(change), "change_bits": c04Bits(change),
 				"temperature": c04G(tBefore), "temperature_bits": c04Bits(tBefore), "draw": c04G(u), "draw_bits": c04Bits(u), "source_int63": k,
 				"expected_accept": wantAccept, "expected_probability": c04G(wantP), "expected_objective": c04G(wantObj),
 				"got_calls": calls, "got_event": dec, "got_probability": c04G(prob), "got_probability_bits": c04Bits(prob),
@@ -546,6 +546,40 @@ func c04Instance(p *prng, dir int, T, cf float64, coolP float64, class string, f
 	r.flush()
 }
 
+// The temperature is changed through the public Explorer.SetTemperature between proposals that repeat the
+// same change magnitude (cooling factor 1, with and without CoolDown in between): the acceptance probability
+// must follow the CURRENT temperature.  Each stretch at one temperature is emitted as its own case (the Coq
+// model's step language has no SetTemperature; every stretch starts with a valid proposal, so no stale state
+// of the previous stretch is observable).
+func c04Retemp(p *prng, dir int) {
+	T := c04Mant(p) * math.Pow(10, float64(p.intn(5)-2))
+	r := c04Scripted(dir, T, 1, math.Round(1e6*p.float())/1000, "retemp")
+	worse := 1.0
+	if dir == c04Max {
+		worse = -1.0
+	}
+	mag := c04Mant(p) * T
+	for seg := 0; seg < 6; seg++ {
+		Tnow := r.ke.Temperature
+		pr := c04Proposal{true, worse * mag}
+		r.undesirable(p, pr, pr.change, Tnow, []float64{0, 1}[seg%2])
+		if p.chance(0.3) { // an improving or invalid proposal in between must not matter
+			r.step(p.chance(0.5), -worse*mag, int64(p.next()>>1), false, "irrelevant")
+			r.undesirable(p, pr, pr.change, r.ke.Temperature, 0)
+		}
+		r.flush()
+		// next stretch: same explorer, new temperature, same magnitudes
+		r.steps = nil
+		factor := []float64{0.2, 5, 0.01, 100, 0.5, 2}[p.intn(6)]
+		if err := r.ke.SetTemperature(Tnow * factor); err != nil {
+			panic(err)
+		}
+		r.t0 = r.ke.Temperature
+		r.obj0 = r.ke.ObjectiveValue()
+		c04stats["set_temperature_calls"]++
+	}
+}
+
 // extreme magnitudes of temperature and change (still inside the quantifier: finite, T > 0)
 func c04Extremes(p *prng, dir int) {
 	ext := []float64{5e-324, 2.2250738585072014e-308, 1e-300, 1e-150, 1, 1e150, 1e300, math.MaxFloat64}
@@ -635,6 +669,9 @@ func runC04(args []string) {
 	}
 	for _, dir := range []int{c04Min, c04Max} {
 		c04Extremes(p, dir)
+		for k := 0; k < 4*reps; k++ {
+			c04Retemp(p, dir)
+		}
 	}
 	liveN := 150
 	if tier == "thorough" {
